@@ -100,6 +100,47 @@ func c18RespellQuery(q *Query, r *Rng, feats map[string]bool) {
 	}
 }
 
+var c18IntPool = []int64{8, 9, 10, 11, 17, 18, 19, 64, 77, 80, 89, 99, 100, 108, -8, -9, -10, -18}
+
+// c18BigInts replaces some index / slice numbers of the path (top level only) by values from c18IntPool.
+func c18BigInts(p *Path, r *Rng) bool {
+	done := false
+	for _, s := range p.Steps {
+		st := s
+		if st.Kind == StDesc {
+			st = st.Inner
+		}
+		if st.Kind != StUnion {
+			continue
+		}
+		for i := range st.Subs {
+			sub := &st.Subs[i]
+			pickInt := func() *int64 { v := c18IntPool[r.Intn(len(c18IntPool))]; return &v }
+			switch sub.Kind {
+			case SubIdx:
+				if r.Chance(60) {
+					sub.N = *pickInt()
+					done = true
+				}
+			case SubSlice:
+				if sub.S != nil && r.Chance(40) {
+					sub.S = pickInt()
+					done = true
+				}
+				if sub.E != nil && r.Chance(40) {
+					sub.E = pickInt()
+					done = true
+				}
+				if sub.T != nil && r.Chance(30) {
+					sub.T = pickInt()
+					done = true
+				}
+			}
+		}
+	}
+	return done
+}
+
 type c18Spelling struct {
 	p     *Path
 	text  string
@@ -168,8 +209,15 @@ func (c18) Exec(seed int64, i int, tier string) Record {
 			break
 		}
 	}
-	n := r.Range(2, 6)
 	feats := map[string]bool{}
+	if r.Chance(15) {
+		// integers whose spelling with a leading zero would read differently in another base (8, 9, 010 …): whatever the
+		// document holds, every spelling must behave alike
+		if c18BigInts(p, r) {
+			feats["ints:two-digit / 8 / 9 values"] = true
+		}
+	}
+	n := r.Range(2, 6)
 	sps := make([]*c18Spelling, n)
 	for k := 0; k < n; k++ {
 		q := c09ClonePath(p)
